@@ -169,6 +169,26 @@ def run_shard(sh, rec):
                                     ctx["midstep"][...] = (rng.standard_normal(ctx["midstep"].shape) * 50).astype(real_t)
                                 audit.audit(vname, case, A, rec, rng, real_t, dict(meta, call=rep))
                                 rec.count("repeat_calls_same_array_objects")
+                            # a time history filled snapshot by snapshot: the output argument is a TEMPORARY view hist[j] of one owning
+                            # array, created for the call and freed afterwards (CPython then recycles its id for the next view) - state a
+                            # wrapper keeps per output object (cached component views keyed by id()) points at the wrong memory
+                            onames = [k for k, role in case.roles.items() if role == "out" and case.kw[k].dtype.kind != "c"]
+                            if onames and sk == "random":
+                                import copy as _copy
+
+                                k0 = onames[0]
+                                hist = util.sentinel_like(rng, (3,) + case.kw[k0].shape, case.kw[k0].dtype).copy()
+                                for j in range(3):
+                                    for k, role in case.roles.items():
+                                        a = case.kw[k]
+                                        if role in ("in", "inout") and k not in ("char_field", "level_set_field") and a.dtype.kind != "c":
+                                            a[...] = rng.standard_normal(a.shape).astype(a.dtype)
+                                    c2 = _copy.copy(case)
+                                    c2.kw = dict(case.kw)
+                                    c2.kw[k0] = hist[j]
+                                    audit.audit(vname, c2, A, rec, rng, real_t, dict(meta, call=f"history[{j}]"))
+                                    del c2
+                                    rec.count("calls_with_temporary_output_views")
                         if mode == "asan" and done:
                             rec.count("asan_calls_clean")
                         nontrivial = True
